@@ -241,9 +241,12 @@ def run_unit(name, tier="quick", rlimit=None, smt_seed=None):
                 with open(vp, "w") as f:
                     f.write(vt)
                 vpaths.append(vp)
+            # verus takes one --verify-function pattern: functions sharing a short name share it; with several distinct
+            # names every variant verifies the whole file (slower, same verdicts)
+            pats = sorted({"*" + q.split("::")[-1] + "*" for q in unit["split_arms"]})
+            vf = ["--verify-root", "--verify-function", pats[0]] if len(pats) == 1 else []
             with cf.ThreadPoolExecutor(max_workers=8) as ex2:
-                split_runs = list(ex2.map(lambda vp: E.run_verus(vp, rlimit=rlimit or unit.get("rlimit"),
-                                                                 extra=(extra or []) + ["--verify-root"] + sum([["--verify-function", "*" + q.split("::")[-1] + "*"] for q in unit["split_arms"]], [])), vpaths))
+                split_runs = list(ex2.map(lambda vp: E.run_verus(vp, rlimit=rlimit or unit.get("rlimit"), extra=(extra or []) + vf), vpaths))
             res["split_variants"] = len(variants)
         vr = E.run_verus(gen, rlimit=rlimit or unit.get("rlimit"), extra=extra or None)
         if split_runs:
